@@ -38,10 +38,11 @@ def suppressed (s : SpecSt) : Bool :=
 
 def emit (s : SpecSt) (b : Bytes) : Bytes := if suppressed s then [] else b
 
-/-- A handler is active if it is a document handler or some open element matched its selector. -/
+/-- A handler is active if it is a document handler, or a text / comment handler whose selector
+matched some open element. -/
 def isActive (H : List Handler) (s : SpecSt) (i : Nat) : Bool :=
   match H[i]? with
-  | some h => h.sel.isNone || s.openEls.any fun o => o.matched.contains i
+  | some h => h.sel.isNone || (isContentHandler H i && s.openEls.any fun o => o.matched.contains i)
   | none => false
 
 /-- The API calls made by all active handlers of one kind, in registration order. -/
